@@ -290,11 +290,15 @@ def gen_c18_cfg(rng, max_days=60):
         for a in assets[len(assets) - k:]:
             dates[a] = same
     cfg['universe']['dates'] = dates
+    cfg.pop('market2', None)
     if rng.random() < 0.6 and cfg['alpha']['kind'] in ('single', 'mom_sign', 'inv_vol'):
         # a second data source: same tickers priced differently for some, plus one ticker only it carries
         m2 = json.loads(json.dumps(cfg['market']))
         m2['seed'] = cfg['market']['seed'] + 31337
         m2['assets'] = rng.sample(cfg['market']['assets'], max(1, len(cfg['market']['assets']) // 2)) + ['ZZZ']
+        first_asked = sorted(a for a, d in dates.items() if d == cfg['start'])
+        if first_asked and first_asked[0][3:] not in m2['assets']:
+            m2['assets'].insert(0, first_asked[0][3:])       # the first asset a session asks about is priced by both sources
         m2['ratio'] = {s_: 1.0 for s_ in m2['assets']}
         m2.pop('late', None); m2.pop('shift', None); m2.pop('level', None)
         cfg['market2'] = m2
@@ -403,7 +407,7 @@ def run_c18_case(case, acc):
         # (b) data source that already served another session and a storm of shuffled queries
         world = sesswl.make_world(cfg)
         try:
-            shared = {'share_handler': rng.random() < 0.7}
+            shared = {'share_handler': rng.random() < 0.7 or bool(cfg.get('market2'))}
             other = json.loads(json.dumps(cfg))
             other['rebalance'] = 'daily' if cfg['rebalance'] != 'daily' else 'weekly'
             other.setdefault('weekday', 'WED')
